@@ -115,6 +115,9 @@ def _plain(x, depth=0):
     return repr(x)[:300]
 
 
+_SHARDS_RUN_BY_THIS_PROCESS = []
+
+
 def _worker(args):
     modname, shard = args
     import importlib
@@ -136,6 +139,8 @@ def _worker(args):
         return {"error": traceback.format_exc(), "shard": shard}
     for d in res.deviations:
         d["_shard"] = shard  # lets a history-dependent deviation be reproduced by re-running its shard
+        d["_prev_shards"] = list(_SHARDS_RUN_BY_THIS_PROCESS)  # ... or the shards its worker ran before it
+    _SHARDS_RUN_BY_THIS_PROCESS.append(shard)
     return {
         "states": res.states,
         "transitions": res.transitions,
@@ -192,9 +197,10 @@ def run_check(mod, tier, seed, jobs=None, replay_confirm=True):
         results = map(_worker, [(mod.__name__, s) for s in shards])
         pool = None
     else:
-        # one forked process per shard: a shard's outcome depends only on the shard (no memo state inherited from whatever
-        # shard the worker ran before), so re-running a shard in a fresh process reproduces it exactly
-        pool = ctx.Pool(jobs, maxtasksperchild=1)
+        # workers are long-lived (a fresh process per shard costs ~2x: every process re-warms the interpreter); each
+        # deviation remembers which shards its worker had run before, so a deviation that depends on state left behind by
+        # an earlier shard can be reproduced by replaying that sequence (VERIF_FRESH_WORKERS=1: one process per shard)
+        pool = ctx.Pool(jobs, maxtasksperchild=(1 if os.environ.get("VERIF_FRESH_WORKERS") else None))
         results = pool.imap_unordered(_worker, [(mod.__name__, s) for s in shards], chunksize=1)
     shard_walls = []
     for r in results:
@@ -352,7 +358,7 @@ def replay_in_fresh_process(prop, path) -> bool:
         env=env,
         capture_output=True,
         text=True,
-        timeout=600,
+        timeout=3600,
     )
     return p.returncode == 1
 
@@ -379,6 +385,17 @@ def do_replay(mod, path, quiet=False):
             same = [x for x in res.deviations if x["sig"] == d["sig"]]
         if same and not quiet:
             print(f"  (history-dependent: reproduces only after the earlier cases of shard {d['_shard']})")
+        if not same and d.get("_prev_shards"):
+            # state left behind by the shards the same worker process ran earlier: replay that sequence, then the shard
+            bootstrap.clear_global_caches()
+            with warnings.catch_warnings():
+                warnings.simplefilter("ignore")
+                for sh in d["_prev_shards"]:
+                    mod.run_shard(sh)
+                res = mod.run_shard(d["_shard"])
+            same = [x for x in res.deviations if x["sig"] == d["sig"] and x["case"] == d["case"]] or [x for x in res.deviations if x["sig"] == d["sig"]]
+            if same and not quiet:
+                print(f"  (history-dependent: reproduces only after the {len(d['_prev_shards'])} shard(s) the worker ran before shard {d['_shard']})")
     if same:
         if not quiet:
             for x in same[:5]:
